@@ -1,5 +1,6 @@
 import MechVerif.Driver.Util
 import MechVerif.Spec.Prec
+import MechVerif.Model.Formula
 namespace MechVerif.Driver
 open MechVerif.Prec
 
@@ -7,78 +8,68 @@ open MechVerif.Prec
 def opTable : List (String × String × Nat) := [
   ("or", "||", 1), ("and", "&&", 1), ("xor", "⊕", 1),
   ("eq", "==", 2), ("ne", "!=", 2), ("lt", "<", 2), ("le", "<=", 2), ("gt", ">", 2), ("ge", ">=", 2),
-  ("add", "+", 3), ("sub", "-", 3), ("mul", "*", 4), ("div", "/", 4), ("mod", "%", 4), ("pow", "^", 5)]
+  ("add", "+", 3), ("sub", "-", 3), ("mul", "*", 4), ("div", "/", 4), ("mod", "%", 4), ("pow", "^", 5),
+  ("join", "⋈", 6), ("ljoin", "⟕", 6), ("rjoin", "⟖", 6), ("fjoin", "⟗", 6), ("semi", "⋉", 6), ("anti", "▷", 6),
+  ("union", "∪", 7), ("inter", "∩", 7), ("diff", "∖", 7), ("symdiff", "Δ", 7), ("subset", "⊆", 7), ("superset", "⊇", 7),
+  ("psubset", "⊊", 7), ("psuperset", "⊋", 7), ("elem", "∈", 7), ("notelem", "∉", 7)]
 
 def opOf (name : String) : Option Op :=
   match opTable.findIdx? (fun e => e.1 == name) with
   | some i => some ⟨i, (opTable.getD i ("", "", 0)).2.2⟩
   | none => none
 
-inductive A where
-  | lit (s : String)
-  | paren (t : Tree A)
-  | neg (a : A)
-  | not (a : A)
+/-- the grammar of the real parser: seven levels, `-` after an operand is `sub` -/
+def gram : Formula.Gram := ⟨7, ⟨10, 3⟩⟩
 
+open Formula in
+/-- tokens of a case line: `neg` and `sub` are the same character `-` (the model decides by position which
+    one it is), `not` is `!`, `tr` the transpose mark; anything else is an operand, numbered by position -/
+def tokenise (ws : List String) : List Tok × List String :=
+  let step (acc : List Tok × List String) (w : String) : List Tok × List String :=
+    if w == "neg" || w == "sub" then (acc.1 ++ [Tok.dash], acc.2)
+    else if w == "not" then (acc.1 ++ [Tok.bang], acc.2)
+    else if w == "tr" then (acc.1 ++ [Tok.quote], acc.2)
+    else if w == "(" then (acc.1 ++ [Tok.lp], acc.2)
+    else if w == ")" then (acc.1 ++ [Tok.rp], acc.2)
+    else match opOf w with
+      | some o => (acc.1 ++ [Tok.op o], acc.2)
+      | none => (acc.1 ++ [Tok.atom acc.2.length], acc.2 ++ [w])
+  ws.foldl step ([], [])
+
+open Formula in
 mutual
-partial def parseA : List String → Option (A × List String)
-  | "neg" :: ts => (parseA ts).map (fun p => (A.neg p.1, p.2))
-  | "not" :: ts => (parseA ts).map (fun p => (A.not p.1, p.2))
-  | "(" :: ts =>
-    match parseF ts with
-    | some (t, ")" :: rest) => some (A.paren t, rest)
-    | _ => none
-  | t :: ts => if t == ")" || (opOf t).isSome then none else some (A.lit t, ts)
-  | [] => none
-
-/-- a whole formula up to a closing parenthesis or the end -/
-partial def parseF (ts : List String) : Option (Tree A × List String) :=
-  match parseA ts with
-  | none => none
-  | some (a, rest) =>
-    let rec chain (ts : List String) (acc : List (Op × A)) : Option (List (Op × A) × List String) :=
-      match ts with
-      | [] => some (acc.reverse, [])
-      | ")" :: _ => some (acc.reverse, ts)
-      | t :: ts' =>
-        match opOf t, parseA ts' with
-        | some o, some (b, rest') => chain rest' ((o, b) :: acc)
-        | _, _ => none
-    match chain rest [] with
-    | none => none
-    | some (pairs, rest') =>
-      let res := parseFormula 7 a pairs
-      if res.2.isEmpty then some (res.1, rest') else none
+partial def sexprA (lits : List String) : Fac → String
+  | .atom n => lits.getD n "?"
+  | .paren t => "(paren " ++ sexprT lits t ++ ")"
+  | .neg a => "(neg " ++ sexprA lits a ++ ")"
+  | .not a => "(not " ++ sexprA lits a ++ ")"
+  | .tr a => "(tr " ++ sexprA lits a ++ ")"
+partial def sexprT (lits : List String) : Tree Fac → String
+  | .leaf a => sexprA lits a
+  | .node l o r => "(" ++ (opTable.getD o.name ("?", "?", 0)).1 ++ " " ++ sexprT lits l ++ " " ++ sexprT lits r ++ ")"
 end
 
+open Formula in
 mutual
-partial def sexprA : A → String
-  | .lit s => s
-  | .paren t => "(paren " ++ sexprT t ++ ")"
-  | .neg a => "(neg " ++ sexprA a ++ ")"
-  | .not a => "(not " ++ sexprA a ++ ")"
-partial def sexprT : Tree A → String
-  | .leaf a => sexprA a
-  | .node l o r => "(" ++ (opTable.getD o.name ("?", "?", 0)).1 ++ " " ++ sexprT l ++ " " ++ sexprT r ++ ")"
-end
-
-mutual
-partial def ptextA : A → String
-  | .lit s => s
-  | .paren t => "(" ++ ptextT t ++ ")"
-  | .neg a => "(-" ++ ptextA a ++ ")"
-  | .not a => "(!" ++ ptextA a ++ ")"
-partial def ptextT : Tree A → String
-  | .leaf a => ptextA a
-  | .node l o r => "(" ++ ptextT l ++ " " ++ (opTable.getD o.name ("?", "?", 0)).2.1 ++ " " ++ ptextT r ++ ")"
+partial def ptextA (lits : List String) : Fac → String
+  | .atom n => lits.getD n "?"
+  | .paren t => "(" ++ ptextT lits t ++ ")"
+  | .neg a => "(-" ++ ptextA lits a ++ ")"
+  | .not a => "(!" ++ ptextA lits a ++ ")"
+  | .tr a => "(" ++ ptextA lits a ++ "')"
+partial def ptextT (lits : List String) : Tree Fac → String
+  | .leaf a => ptextA lits a
+  | .node l o r => "(" ++ ptextT lits l ++ " " ++ (opTable.getD o.name ("?", "?", 0)).2.1 ++ " " ++ ptextT lits r ++ ")"
 end
 
 def runC02 (fields : List String) (obs : String) : String × String × String :=
   match fields with
   | [_, body] =>
-    match parseF (body.splitOn " ") with
+    let (toks, lits) := tokenise (body.splitOn " ")
+    -- the proved token-level parser (Model/Formula.lean); twice the length of the text plus four covers `costT t + 2`
+    match Formula.pForm gram (2 * toks.length + 4) toks with
     | some (t, []) =>
-      let model := "tree:" ++ sexprT t ++ "#p:" ++ ptextT t ++ "#same:true"
+      let model := "tree:" ++ sexprT lits t ++ "#p:" ++ ptextT lits t ++ "#same:true"
       (model, if obs == model then "ok" else "bad:expected " ++ model, "-")
     | _ => ("bad-case", "bad-case", "-")
   | _ => ("bad-case", "bad-case", "-")
